@@ -73,6 +73,16 @@ pub struct Req {
     pub wl: Option<bool>,
     pub coll_ok: bool,
     pub funds: Vec<(String, u128)>,
+    /// open edition: NFT metadata mode (true = OnChainMetadata, collection code sg721-metadata-onchain;
+    /// `uri_ok` then speaks about the image URL of the extension, `nft_ok` about the extension being there)
+    #[serde(default)]
+    pub onchain: bool,
+    /// open edition: both a token_uri and an extension are given (never valid)
+    #[serde(default)]
+    pub nft_both: bool,
+    /// open edition, on-chain mode: the extension has no image at all (valid)
+    #[serde(default)]
+    pub image_none: bool,
 }
 
 #[derive(Clone, Debug, Serialize, Deserialize)]
@@ -106,6 +116,7 @@ fn code_of(w: &World, label: &str) -> u64 {
     match label {
         "B" => w.codes["sg721-base"],
         "U" => w.codes["sg721-updatable"],
+        "O" => w.codes["sg721-metadata-onchain"],
         _ => w.codes["sg721-nt"],
     }
 }
@@ -179,6 +190,7 @@ impl World {
         put(&mut app, "base-factory", chain::base_factory());
         put(&mut app, "sg721-base", chain::sg721_base());
         put(&mut app, "sg721-nt", chain::sg721_nt());
+        put(&mut app, "sg721-metadata-onchain", chain::sg721_metadata_onchain());
         put(&mut app, "whitelist", chain::whitelist());
         put(&mut app, "whitelist-flex", chain::whitelist_flex());
         put(&mut app, "sg721-updatable", chain::sg721_updatable());
@@ -208,7 +220,7 @@ impl World {
 
     fn params_json(&self, kind: Kind, code: usize, p: &Params) -> Value {
         let minter = self.codes[Self::minter_code_name(kind, code)];
-        let allowed = vec![self.codes["sg721-base"]];
+        let allowed = vec![self.codes["sg721-base"], self.codes["sg721-metadata-onchain"]];
         match kind {
             Kind::Base => json!({"params": {"code_id": minter, "allowed_sg721_code_ids": allowed, "frozen": p.frozen,
                 "creation_fee": coinv(p.fee, dn(p.fee_ibc)), "min_mint_price": coinv(p.min_price, dn(p.min_ibc)),
@@ -286,6 +298,29 @@ impl World {
             Ok(Err(e)) => Err(format!("{:#}", e)),
             Err(p) => Err(p),
         }
+    }
+}
+
+const GOOD_IMAGE: &str = "https://example.com/editions/one.png";
+/// the nft_data of an open-edition request
+fn oe_nft_data(r: &Req, uri: &str) -> Value {
+    let image: Value = if r.image_none {
+        Value::Null
+    } else if r.uri_ok {
+        json!(format!(" {} ", GOOD_IMAGE))
+    } else {
+        json!("not a url")
+    };
+    let ext = json!({"image": image, "image_data": null, "external_url": null, "description": "on-chain edition",
+        "name": "Edition", "attributes": null, "background_color": null, "animation_url": null, "youtube_url": null});
+    if r.onchain {
+        json!({"nft_data_type": "on_chain_metadata",
+               "extension": if r.nft_ok || r.nft_both { ext } else { Value::Null },
+               "token_uri": if r.nft_both { Some(uri) } else { None }})
+    } else {
+        json!({"nft_data_type": "off_chain_metadata",
+               "extension": if r.nft_both { ext } else { Value::Null },
+               "token_uri": if r.nft_ok || r.nft_both { Some(uri) } else { None }})
     }
 }
 
@@ -375,7 +410,7 @@ pub fn run_case(c: &Case) -> Outcome {
     }
     let want = intended(kind, &c.params, &c.updates);
     // allow-list proposals: only the add / remove lists are supplied, every other field keeps its value
-    let mut want_codes: Vec<String> = vec!["B".into()];
+    let mut want_codes: Vec<String> = vec!["B".into(), "O".into()];
     for (add, rm) in &c.code_ops {
         let mut j = World::update_json(kind, &want);
         j["update_params"]["add_sg721_code_ids"] = json!(add.iter().map(|l| code_of(&w, l)).collect::<Vec<u64>>());
@@ -423,7 +458,9 @@ pub fn run_case(c: &Case) -> Outcome {
     let start = (now as i128 + r.start_in as i128) as u64;
     let end = r.end_in.map(|e| (now as i128 + e as i128) as u64);
     let trading = r.trading_in.map(|e| (now as i128 + e as i128) as u64);
-    let req_label: String = r_code_label(c);
+    let onchain = kind == Kind::Open && r.onchain;
+    // label of the requested collection code for the governance ledger: O = sg721-metadata-onchain (on the list from the start)
+    let req_label: String = if c.req_code.is_none() && r.coll_code_allowed && onchain { "O".into() } else { r_code_label(c) };
     let coll_code = code_of(&w, &req_label);
     let coll = json!({"code_id": coll_code, "name": "Collection", "symbol": "COL",
         "info": {"creator": CREATOR, "description": "d", "image": "https://example.com/image.png",
@@ -436,8 +473,7 @@ pub fn run_case(c: &Case) -> Outcome {
         Kind::Vending => json!({"base_token_uri": uri, "payment_address": null, "start_time": start.to_string(),
             "num_tokens": r.num_tokens.unwrap_or(0), "mint_price": coinv(r.price, dn(r.price_ibc)),
             "per_address_limit": r.pal, "whitelist": wl_addr.as_ref().map(|a| a.to_string())}),
-        Kind::Open => json!({"nft_data": {"nft_data_type": "off_chain_metadata", "extension": null,
-                "token_uri": if r.nft_ok { Some(uri) } else { None }},
+        Kind::Open => json!({"nft_data": oe_nft_data(r, uri),
             "start_time": start.to_string(), "end_time": end.map(|e| e.to_string()),
             "mint_price": coinv(r.price, dn(r.price_ibc)), "per_address_limit": r.pal, "num_tokens": r.num_tokens,
             "payment_address": null, "whitelist": wl_addr.as_ref().map(|a| a.to_string())}),
@@ -571,6 +607,30 @@ pub fn run_case(c: &Case) -> Outcome {
             }
         }
         if kind == Kind::Open {
+            // the edition was created with well-formed nft data of the requested mode, stored as configured
+            if !r.nft_ok || r.nft_both {
+                viol.push(("C08:oe-malformed-nft-data-accepted".into(), format!("{}: nft data accepted with onchain={} nft_ok={} both={}", hist_key, r.onchain, r.nft_ok, r.nft_both)));
+            }
+            if !r.uri_ok && !(r.onchain && r.image_none) {
+                viol.push(("C08:oe-bad-url-accepted".into(), format!("{}: creation succeeded with a {} that is not a URL", hist_key, if r.onchain { "extension image" } else { "token_uri" })));
+            }
+            if minter_exists {
+                let cfg = w.app.wrap().query_wasm_smart::<Value>(Addr::unchecked(&new_minter), &json!({"config": {}})).unwrap();
+                let nd = &cfg["nft_data"];
+                let want_type = if r.onchain { "on_chain_metadata" } else { "off_chain_metadata" };
+                let stored_ok = if r.onchain {
+                    nd["token_uri"].is_null() && (if r.image_none { nd["extension"]["image"].is_null() } else { nd["extension"]["image"].as_str() == Some(GOOD_IMAGE) })
+                } else {
+                    nd["extension"].is_null() && nd["token_uri"].as_str() == Some(uri)
+                };
+                if nd["nft_data_type"].as_str() != Some(want_type) || !stored_ok {
+                    viol.push(("C08:oe-nft-data-not-stored".into(), format!("{}: minter stores nft_data {} for a request with onchain={}", hist_key, nd, r.onchain)));
+                }
+                let code = w.app.contract_data(&Addr::unchecked(&new_coll)).map(|d| d.code_id).unwrap_or(0);
+                if code != coll_code {
+                    viol.push(("C08:oe-collection-code".into(), format!("{}: collection runs code {}, requested {}", hist_key, code, coll_code)));
+                }
+            }
             if r.start_in <= 0 {
                 viol.push(("C08:oe-start-not-future".into(), format!("{}: start {} ns from now accepted", hist_key, r.start_in)));
             }
@@ -608,6 +668,23 @@ pub fn run_case(c: &Case) -> Outcome {
             viol.push(("C08:rejection-moved-funds-or-state".into(), format!("{}: rejected creation changed balances or factory state", hist_key)));
         }
     }
+    // the factory's own answers about the collection code: the list is the governance list, the
+    // single-code answer agrees with it, and nothing was created with a code the factory calls not allowed
+    {
+        let q1 = w.app.wrap().query_wasm_smart::<Value>(factory.clone(), &json!({"allowed_collection_code_id": coll_code})).ok();
+        let q2 = w.app.wrap().query_wasm_smart::<Value>(factory.clone(), &json!({"allowed_collection_code_ids": {}})).ok();
+        match (q1, q2) {
+            (Some(a), Some(l)) => {
+                let allowed = a["allowed"].as_bool();
+                let ids: Vec<u64> = l["code_ids"].as_array().map(|x| x.iter().filter_map(|y| y.as_u64()).collect()).unwrap_or_default();
+                let gov: Vec<u64> = praw["allowed_sg721_code_ids"].as_array().map(|x| x.iter().filter_map(|y| y.as_u64()).collect()).unwrap_or_default();
+                if ids != gov || allowed != Some(ids.contains(&coll_code)) || (ok && allowed != Some(true)) {
+                    viol.push(("C08:code-id-queries-disagree".into(), format!("{}: AllowedCollectionCodeId({}) = {:?}, AllowedCollectionCodeIds = {:?}, params list {:?}, created = {}", hist_key, coll_code, allowed, ids, gov, ok)));
+                }
+            }
+            _ => viol.push(("C08:code-id-queries-fail".into(), format!("{}: the factory does not answer the allowed-collection-code queries", hist_key))),
+        }
+    }
     let kind_coq = match kind {
         Kind::Base => "FBase",
         Kind::Vending => "FVending",
@@ -626,8 +703,9 @@ pub fn run_case(c: &Case) -> Outcome {
         start,
         coq_opt_n(end),
         coq_opt_n(trading),
-        coq_bool(r.nft_ok),
-        coq_bool(r.uri_ok),
+        coq_bool(r.nft_ok && !r.nft_both),
+        // the URL the minter validates: the token_uri, or the image of the extension (none = nothing to validate)
+        coq_bool(if onchain && (r.image_none || !(r.nft_ok || r.nft_both)) { true } else { r.uri_ok }),
         match r.wl {
             None => "None".to_string(),
             Some(b) => format!("(Some {})", coq_bool(b)),
@@ -720,6 +798,9 @@ fn good_req(kind: Kind, p: &Params) -> Req {
         wl: None,
         coll_ok: true,
         funds: vec![(fee_d, p.fee)],
+        onchain: false,
+        nft_both: false,
+        image_none: false,
     }
 }
 
@@ -785,6 +866,15 @@ fn probes(kind: Kind, code: usize, p: &Params, updates: &[Params]) -> Vec<Case> 
         v.push(Req { end_in: Some(5000 * S as i64), num_tokens: None, ..base.clone() });
         v.push(Req { end_in: Some(5000 * S as i64), num_tokens: None, price: 0, ..base.clone() });
         v.push(Req { nft_ok: false, ..base.clone() });
+        // NFT metadata mode: on-chain metadata with a good / padded image, a bad image URL, no image,
+        // no extension; both token_uri and extension in either mode
+        v.push(Req { onchain: true, ..base.clone() });
+        v.push(Req { onchain: true, uri_ok: false, ..base.clone() });
+        v.push(Req { onchain: true, image_none: true, uri_ok: false, ..base.clone() });
+        v.push(Req { onchain: true, nft_ok: false, ..base.clone() });
+        v.push(Req { onchain: true, nft_both: true, ..base.clone() });
+        v.push(Req { nft_both: true, ..base.clone() });
+        v.push(Req { onchain: true, coll_code_allowed: false, ..base.clone() });
     }
     let mut out: Vec<Case> = v.into_iter().map(|req| Case { kind, code, params: p.clone(), updates: updates.to_vec(), req, before_genesis: 0, code_ops: vec![], req_code: None }).collect();
     if updates.is_empty() {
@@ -903,6 +993,13 @@ fn gen_cases(a: &Args) -> Vec<Case> {
         }
         if kind == Kind::Open && rng.chance(1, 3) {
             req.end_in = if rng.chance(1, 2) { None } else { Some(req.start_in + rng.below(3) as i64 - 1) };
+        }
+        if kind == Kind::Open && rng.chance(1, 2) {
+            req.onchain = true;
+            req.uri_ok = !rng.chance(1, 5);
+            req.image_none = rng.chance(1, 6);
+            req.nft_ok = !rng.chance(1, 8);
+            req.nft_both = rng.chance(1, 10);
         }
         v.push(Case { kind, code, params: p, updates: vec![], req, before_genesis: 0, code_ops: vec![], req_code: None });
     }
